@@ -71,7 +71,14 @@ impl<T> InnerQueue<T> {
         }
 
         match self.queue.pop() {
-            Some(data) => Ok(data),
+            Some(data) => {
+                // the last sender takes a pending data permit for the disconnect
+                // signal, so whoever consumes one after that must pass it on
+                if self.tx_ports.load(Ordering::Acquire) == 0 {
+                    self.sem.post();
+                }
+                Ok(data)
+            }
             None => match self.tx_ports.load(Ordering::Acquire) {
                 0 => {
                     // pass the disconnect permit on to the other receivers
@@ -92,7 +99,14 @@ impl<T> InnerQueue<T> {
         }
 
         match self.queue.pop() {
-            Some(data) => Ok(data),
+            Some(data) => {
+                // the last sender takes a pending data permit for the disconnect
+                // signal, so whoever consumes one after that must pass it on
+                if self.tx_ports.load(Ordering::Acquire) == 0 {
+                    self.sem.post();
+                }
+                Ok(data)
+            }
             None => match self.tx_ports.load(Ordering::Acquire) {
                 0 => {
                     // pass the disconnect permit on to the other receivers
